@@ -181,9 +181,21 @@ def fires (s : St α) (i : Nat) : Bool :=
   | none => false
 
 /-- the `t_eval` samples still due when a terminal event at `te` ends the step -/
-def terminalSamples (fwd : Bool) (xold te : α) (ip : Option (Interp α)) (s : St α) : St α :=
+def terminalSamples (fwd : Bool) (xold x te : α) (ip : Option (Interp α)) (s : St α) : St α :=
   match s.tEval, ip with
   | some tev, some ipv => dueBeforeEvent fwd xold te ipv tev (tev.size + 1) s
+  | none, some ipv =>
+    -- without t_eval, a pending first output x0 ± |first_step| that lies before the event is still due
+    match s.firstStep with
+    | some h0 =>
+      if ¬ s.firstOutputDone then
+        let direction := Num.signum (x - xold)
+        let target := s.x0 + direction * Num.abs h0
+        if direction * (te - target) > Num.zero ∧ direction * (target - xold) ≥ Num.zero then
+          { s with t := s.t.push target, y := s.y.push (ipv.eval target), firstOutputDone := true }
+        else s
+      else s
+    | none => s
   | _, _ => s
 
 def pushSample (s : St α) (t : α) (y : Array α) : St α := { s with t := s.t.push t, y := s.y.push y }
@@ -195,12 +207,12 @@ def pushTerminal (s : St α) (t : α) (y : Array α) : St α :=
   | none => pushSample s t y
 
 /-- process the sorted events; returns the state and whether a terminal event fired -/
-def processEvs (fwd : Bool) (xold : α) (ip : Option (Interp α)) (s : St α) : List (α × Nat × Array α) → St α × Bool
+def processEvs (fwd : Bool) (xold x : α) (ip : Option (Interp α)) (s : St α) : List (α × Nat × Array α) → St α × Bool
   | [] => (s, false)
   | (te, i, ye) :: rest =>
     if fires (recordEv s te i ye) i then
-      (pushTerminal (terminalSamples fwd xold te ip (recordEv s te i ye)) te ye, true)
-    else processEvs fwd xold ip (recordEv s te i ye) rest
+      (pushTerminal (terminalSamples fwd xold x te ip (recordEv s te i ye)) te ye, true)
+    else processEvs fwd xold x ip (recordEv s te i ye) rest
 
 /-! ### Mode 1 (`t_eval`) sampling.  The two `while` loops of the code scan `t_eval` from `next_idx` while the entry is
     inside the upper window of the step and push those inside the lower window; written here as
@@ -274,7 +286,7 @@ def eventPhase (L : Lits α) (gEv : α → Array α → Array α) (s : St α) (x
         match sortEvs (decide (x > xold)) lst with
         | none => none
         | some sorted =>
-          let r := processEvs (decide (x > xold)) xold ip { s with evalLog := s.evalLog ++ log } sorted
+          let r := processEvs (decide (x > xold)) xold x ip { s with evalLog := s.evalLog ++ log } sorted
           some ({ r.1 with prevEvent := gCurr }, r.2)
   else some (s, false)
 
